@@ -14,6 +14,22 @@ from hv import core, mcworlds  # noqa: E402
 from hv.common import Ctx, MachineryError  # noqa: E402
 
 
+def index_flag(ctx) -> str:
+    """HiveIndex with the repair of F19 switched off must violate IndexExact"""
+    from hv import tlc
+    from hv.checks import c08
+
+    ids = {"veh": ["v1"], "req": ["r1"], "st": ["s1"], "bs": ["b1"]}
+    name = c08.write_mc(ctx, "MC_index_selftest", ids, cells=3)
+    cfg = ctx.work / "MC_index_selftest.cfg"
+    cfg.write_text(c08.index_cfg(ids, export=False, flags={"FixReAdd": False}))
+    res = tlc.run_tlc(name, str(cfg), ctx.work, name=name, workers=1, timeout=600)
+    tlc.require_ok(res, allow_violations=True)
+    good = "IndexExact" in res.violated
+    return (f"4. HiveIndex with FixReAdd=FALSE: TLC reports {res.violated} after {res.distinct} states "
+            f"({'as intended' if good else 'NOT DETECTED'})")
+
+
 def main() -> int:
     ctx = Ctx("SELFTEST", "quick", 0)
     out = ["# SELFTEST - the specification is bound to the code", ""]
@@ -71,6 +87,8 @@ def main() -> int:
         ok3 = ok3 and good
         label = ", ".join(f"{k}=FALSE" for k in flags)
         out.append(f"3. {mod} with {label}: TLC reports {res.violated} after {res.distinct} states ({'as intended' if good else 'NOT DETECTED'})")
+    out.append(index_flag(ctx))
+    ok3 = ok3 and "as intended" in out[-1]
     Path(__file__).resolve().parent.parent.joinpath("SELFTEST.md").write_text("\n".join(out) + "\n")
     print("\n".join(out))
     import shutil
